@@ -906,6 +906,20 @@ func oneCase(run *hx.Run, ty string, z *authz, p *payload, tagPrefix string) {
 	}
 	if silent > 0 {
 		run.Tag("pq:unnamed-query-dropped-without-flag")
+		// un-named queries are capabilities (served by ID to whoever knows it, enumerable only with a
+		// management token): dropping them unreported is by design. What must hold instead: the response
+		// is the very one the caller would get if they did not exist.
+		p2 := *p
+		p2.pqs = nil
+		for _, q := range p.pqs {
+			if q.name != "" || q.tmpl {
+				p2.pqs = append(p2.pqs, q)
+			}
+		}
+		if out2, pan := exec(ty, &p2, z); pan || enc(ty, out2) != implOut {
+			violate(run, "pq:unnamed-query-visible-to-non-management",
+				fmt.Sprintf("with un-named queries the response is %q, without them %q", implOut, enc(ty, out2)), []string{op})
+		}
 	}
 	if ty == "IndexedNodeServices" && !p.nsNil {
 		for _, e := range p.ns {
@@ -933,7 +947,7 @@ func runFilterCases(run *hx.Run) {
 		for n := 0; n < per; n++ {
 			r := run.RNG.Fork(uint64(ti*1000003 + n))
 			z := genAuthz(r)
-			g := &gen{r: r, malf: r.Chance(8)}
+			g := &gen{r: r, malf: r.Chance(8), z: z}
 			oneCase(run, ty, z, g.generate(ty), "")
 		}
 	}
